@@ -152,6 +152,16 @@ def _next_leader(E, args, kw):
     (ghost) is the position just after the first empty line of the buffer at the time of the call."""
     g = args[0]
     raw = g.env["raw"]
+    # trailer lines are header lines: they end with CRLF (a bare LF is tolerated), never with a bare CR - with CR as
+    # a mark a trailer's CRLF split across two receives would end the trailer early (cf. the C33 CR|LF finding)
+    marks = tuple(bytes(e) for e in g.env.get("eols", ()))
+    pc_ = E.pc
+    E.pc = []                  # a concrete fact about the code: decided without the (quantified) path condition
+    try:
+        E.oblige("call-pre", z3.BoolVal(marks == (b"\r\n", b"\n")),
+                 "trailer lines are parsed with the leader's marks (CRLF, LF): got %r" % (marks,), assume_after=False)
+    finally:
+        E.pc = pc_
     if "headers_obj" not in g.env:
         h = RefV(E.new_ref(), "lodict", nn=True)               # created by the prologue at the first next()
         E.wr_field(h, "log_k", E.new_list(L.BA, 0))
@@ -209,6 +219,7 @@ def _chunk_ghosts(E):
     pstar if none), slo / shi (the size text raw0[slo:shi] = raw0[0:semi] without surrounding blanks)"""
     env = E.frame.env
     env["eols"] = CRLF1
+    E.ghost["lead_done"], E.ghost["lead_cons"] = False, 0          # set by the leader summary when it is reached
     L._line_ghosts(colon=False)(E)
     raw0 = env["raw0"]
     a = E.larrs(raw0)[0]
@@ -289,6 +300,7 @@ def _line_gen(kind):
 
 
 def _setup0(E):
+    E.snap_ctr = 0          # modular parseLine calls get ghost snapshots of their own (see c33_lines._snap)
     L._seq(L._pin(raw=1000001), _chunk_ghosts, L._bytearray_kind("raw"))(E)
 
 
@@ -304,10 +316,30 @@ def _pin_state(E):
             E.wr_field(h, attr, ListV(z3.IntVal(c), lv.et))
 
 
+def _not_dep(E, *a):
+    # the parseLine clauses relied on here (LINE_ENSURES with marks (CRLF,)) are verified in the C29 run itself as
+    # parseLine[v2][case1] (same clause list); the event-stream variants of parseLine are C33's business
+    E.called.discard((F, "parseLine"))
+
+
 def _kind_line(E):
-    ln = E.frame.env.get("line")
+    env = E.frame.env
+    ln = env.get("line")
     if isinstance(ln, ListV):
         ln.kind = "bytearray"
+    # proof cut: the callee's post relates the new buffer to the old one in the forward direction only
+    # (new[j] == old[j + off]); the same fact re-indexed (raw0[k] == new[k - off]) is PROVED here and then available with
+    # the trigger raw0[k], so that positions named on the snapshot reach the facts stated on the current buffer
+    raw, raw0 = env.get("raw"), env.get("raw0")
+    if isinstance(raw, ListV) and isinstance(raw0, ListV):
+        ra, a0 = E.larrs(raw)[0], E.larrs(raw0)[0]
+        if z3.is_const(ra) and not ra.eq(a0):
+            off = E.llen(raw0) - E.llen(raw)
+            k = E.fresh("kcut", z3.IntSort())
+            body = z3.Implies(z3.And(k >= off, k < E.llen(raw0)), z3.Select(a0, k) == z3.Select(ra, k - off))
+            E.oblige("cut", z3.ForAll([k], body), "buffer after next(lineParser) == raw0 shifted (re-indexed)",
+                     assume_after=False)
+            E.assume(z3.ForAll([k], body, patterns=[z3.Select(a0, k)]))
 
 
 N = "len(raw0)"
@@ -323,7 +355,8 @@ CHUNK_ENSURES = [
     "implies(step_phase == 3, L_size > 0 and is_slice(raw, raw0, %s, %s) and len(raw) < L_size and result is None)" % (D0, N),
     "implies(pstar < len(raw0) and L_size > 0 and len(raw0) - %s < L_size, step_phase == 3)" % D0,
     # phase 4: the chunk is exactly the next `size` bytes; its terminating CRLF is not there yet - wait
-    "implies(step_phase == 4, L_size > 0 and is_slice(L_chunk, raw0, %s, %s) and is_slice(raw, raw0, %s, %s) and "
+    # (a NEGATIVE size - int() accepts a sign - also gets here: malformed, outside the statement; see findings)
+    "implies(step_phase == 4 and L_size > 0, is_slice(L_chunk, raw0, %s, %s) and is_slice(raw, raw0, %s, %s) and "
     "no_eol_in(raw0, %s, %s, %s, eols) and result is None)" % (D0, DE, DE, N, DE, N, N),
     # finished, data chunk: (size, parms, trails, chunk) with chunk == exactly the `size` bytes after the size line,
     # CRLF after them, consumed exactly size line + CRLF + data + CRLF, what follows is untouched
@@ -445,6 +478,7 @@ contract(F, "parseChunk", "C29", tags=("phases", "phase=1", "logic=AUFLIA"),
 
 
 def _setup_data(E):
+    E.snap_ctr = 0
     L._seq(L._pin(raw=1000001), L._snap(), L._bytearray_kind("raw"))(E)
     E.frame.env["eols"] = CRLF1
 
@@ -470,6 +504,7 @@ contract(F, "parseChunk", "C29", tags=("phases", "phase=3", "logic=AUFLIA"),
 
 
 def _setup_end(E):
+    E.snap_ctr = 0
     L._seq(L._pin(raw=1000001, chunk=1000020), L._snap(), L._bytearray_kind("raw", "chunk"))(E)
     E.frame.env["eols"] = CRLF1
 
@@ -556,6 +591,7 @@ packed_len.native = lambda msg: len(format(len(msg), "x")) + len(msg) + 4
 
 
 def _setup_inv(E):
+    E.snap_ctr = 0
     L._seq(L._pin(raw=1000001, msg=1000060), _chunk_ghosts, L._bytearray_kind("raw", "msg"))(E)
 
 
@@ -579,3 +615,69 @@ contract(F, "parseChunk", "C29", tags=("phases", "phase=0", "logic=AUFLIA"), par
          note="inverse lemma as a composed contract: parseChunk on packChunk(msg) ++ anything yields size == len(msg), "
               "chunk == msg and leaves exactly what followed (len(msg) > 0; the empty message packs to the LAST chunk, "
               "which goes through the trailer phase)")
+
+
+# ------------------------------------------------------------------------------------------ native split independence
+def _run_chunks(mod, pieces):
+    """feed the pieces one receive at a time to a fresh parseChunk; returns (result or exception name, rest)"""
+    raw = bytearray()
+    gen = mod.parseChunk(raw)
+    res = None
+    fed = 0
+    for p in pieces:
+        raw.extend(p)
+        fed += 1
+        try:
+            res = next(gen)
+        except StopIteration:
+            break
+        except Exception as ex:
+            return ("raised", type(ex).__name__), bytes(raw)
+        if res is not None:
+            break
+    for p in pieces[fed:]:
+        raw.extend(p)              # receives after the chunk was complete only extend what is left over
+    if res is None:
+        return None, bytes(raw)
+    return (res[0], dict(res[2]), bytes(res[3])), bytes(raw)
+
+
+def _split_check(env, nr, outcome, result, exc):
+    """statement: any split of the bytes into successive receives parses like the whole.  Every two-way split of the
+    buffer is replayed on the real generator whenever the whole buffer yields a complete chunk."""
+    whole = env["raw0"]
+    ref, rest = _run_chunks(nr.mod, [whole])
+    if ref is None or ref[0] == "raised":
+        return []
+    out = []
+    for cut in range(1, len(whole)):
+        got, grest = _run_chunks(nr.mod, [whole[:cut], whole[cut:]])
+        if (got, grest) != (ref, rest):
+            out.append("split independence: %r | %r parses as %r leaving %r, the whole buffer as %r leaving %r"
+                       % (whole[:cut], whole[cut:], got, grest, ref, rest))
+            break
+    return out
+
+
+LAST_CHUNKS = [b"0\r\n\r\n", b"0\r\nA: b\r\n\r\n", b"0;x=1\r\nA: b\r\nC:d\r\n\r\n", b"0\r\nA: b\n\n", b"00\r\n\r\n"]
+
+
+def _mk_whole(rng, i, cex, nr):
+    if rng.random() < 0.5:
+        whole = rng.choice(LAST_CHUNKS) + L.rand_bytes(rng, 0, 6, alphabet=b"ab\r\n")
+    else:
+        msg = L.rand_bytes(rng, 1, 9, alphabet=b"ab\r\n;")
+        whole = nr.mod.packChunk(msg) + L.rand_bytes(rng, 0, 6, alphabet=b"ab\r\n")
+    raw = bytearray(whole)
+    env = {"raw": raw, "_gen": nr.mod.parseChunk(raw), "eols": CRLF1, "raw0": bytes(whole), "n0": len(whole)}
+    env.update(n_chunk_positions(whole))
+    return env
+
+
+for _c in REG.contracts[(F, "parseChunk")]:
+    if "n0" in _c.params:
+        _c.replay = dict(make=_mk_whole, call=_call_chunk, view=_view_chunk, check=_split_check, count=300)
+
+
+for _c in REG.contracts[(F, "parseChunk")]:
+    _c.extra_posts = list(_c.extra_posts) + [_not_dep]
